@@ -20,18 +20,24 @@ import (
 
 // C27: printing a parsed tree gives source that parses back to the same tree.
 //
-// Case {id, mode, t, pred, src:[tokens]} (exported by TLC) or {id, mode, text} (corpus / random source).
-// The driver joins the tokens with one space, parses the source with the real parser (T1), calls the
-// real String method, parses the result again (T2) and logs both trees as generic dumps without
-// positions. It judges nothing: the TLA+ Trace specification compares the trees.
+// Case {id, mode, t, pred, src:[tokens], lits:[[bytes]]} (exported by TLC) or {id, mode, text} (corpus /
+// random source). The driver joins the tokens with one space (a token "#n" stands for the literal whose
+// source bytes are lits[n-1]), parses the source with the real parser (T1), calls the real String
+// method, parses the result again (T2) and logs both trees as generic dumps without positions. It
+// judges nothing: the TLA+ Trace specification compares the trees.
 
 type node struct {
-	K string   `json:"k"`
-	V []string `json:"v"`
-	C []*node  `json:"c"`
+	K string  `json:"k"`
+	V []any   `json:"v"` // decimal/bool/name strings; byte arrays for data fields (see dump)
+	C []*node `json:"c"`
 }
 
-func leaf(k string) *node { return &node{K: k, V: []string{}, C: []*node{}} }
+func leaf(k string) *node { return &node{K: k, V: []any{}, C: []*node{}} }
+
+// dataFields are the string fields that hold data (what a literal denotes, a literal's spelling, raw
+// text) rather than a name: they are dumped as byte arrays, so that the comparison is exact whatever
+// bytes they contain.
+var dataFields = map[string]bool{"Path": true, "Value": true, "Text": true}
 
 var errStop = errors.New("tree captured")
 
@@ -81,7 +87,11 @@ func dump(v reflect.Value) *node {
 		fv := v.Field(i)
 		switch fv.Kind() {
 		case reflect.String:
-			n.V = append(n.V, fv.String())
+			if dataFields[f.Name] {
+				n.V = append(n.V, drv.IntsS(fv.String()))
+			} else {
+				n.V = append(n.V, fv.String())
+			}
 		case reflect.Bool:
 			n.V = append(n.V, strconv.FormatBool(fv.Bool()))
 		case reflect.Int, reflect.Int8, reflect.Int16, reflect.Int32, reflect.Int64:
@@ -96,7 +106,7 @@ func dump(v reflect.Value) *node {
 			}
 		case reflect.Slice:
 			if f.Type.Elem().Kind() == reflect.Uint8 {
-				n.V = append(n.V, string(fv.Bytes()))
+				n.V = append(n.V, drv.Ints(fv.Bytes()))
 				continue
 			}
 			l := leaf("list")
@@ -198,6 +208,9 @@ func collect(v reflect.Value, out *[]subObs, root bool, mode string) []int {
 			if !f.IsExported() || f.Anonymous || f.Name == "IR" || f.Name == "Upvars" || f.Name == "Reflect" || f.Type == treeType {
 				continue
 			}
+			if t.Name() == "Import" && (f.Name == "Ident" || f.Name == "For") {
+				continue // declared names ('.', '_', A), not expressions: they have no source form of their own
+			}
 			kids = append(kids, collect(v.Field(i), out, false, "expr")...)
 		}
 	case reflect.Slice:
@@ -228,7 +241,26 @@ type c27Case struct {
 	T    json.RawMessage `json:"t"`
 	Pred json.RawMessage `json:"pred"`
 	Src  []string        `json:"src"`
+	Lits [][]int         `json:"lits"`
 	Text string          `json:"text"`
+}
+
+// join concretises a token sequence: tokens separated by one space, literal holes filled in.
+func join(src []string, lits [][]int) string {
+	var b strings.Builder
+	for i, tok := range src {
+		if i > 0 {
+			b.WriteByte(' ')
+		}
+		if len(tok) > 1 && tok[0] == '#' {
+			if n, err := strconv.Atoi(tok[1:]); err == nil && n >= 1 && n <= len(lits) {
+				b.Write(drv.BytesOf(lits[n-1]))
+				continue
+			}
+		}
+		b.WriteString(tok)
+	}
+	return b.String()
 }
 
 var (
@@ -242,9 +274,12 @@ func each(raw json.RawMessage, seed int64) []any {
 	if k.T == nil {
 		k.T, k.Pred, k.Src = noModel, noPred, []string{}
 	} else {
-		k.Text = strings.Join(k.Src, " ")
+		k.Text = join(k.Src, k.Lits)
 	}
-	o := map[string]any{"id": k.ID, "mode": k.Mode, "t": k.T, "pred": k.Pred, "src": k.Src, "text": k.Text}
+	if k.Lits == nil {
+		k.Lits = [][]int{}
+	}
+	o := map[string]any{"id": k.ID, "mode": k.Mode, "t": k.T, "pred": k.Pred, "src": k.Src, "lits": k.Lits, "text": k.Text}
 	t1, n := parseSubject(k.Mode, k.Text)
 	o["T1"] = t1
 	o["str"] = ""
@@ -324,8 +359,51 @@ var (
 	rLit = []string{"a", "b", "c", "x.y", "a1", "2.5", "\"s\"", "'r'", "`w`", "3i", "nil", "true"}
 )
 
+var rPathChars = []string{"a", "b", "f", "n", "t", "x", "u", "0", "1", ".", "-", "_", "\\", "\"", "'", "`", " ", "\t", "\x7f",
+	"\u00e9", "\u00a0", "\u4e16", "%", "}", "{", "#", ":"}
+
+// randStringLit returns a string literal in one of several spellings; with path set its value is a
+// valid template path (random elements, optional "/" or "../" prefix).
+func randStringLit(r *rand.Rand, path bool) string {
+	elem := func() string {
+		for {
+			var e string
+			for i, n := 0, 1+r.Intn(4); i < n; i++ {
+				e += rPathChars[r.Intn(len(rPathChars))]
+			}
+			if e != "." && e != ".." {
+				return e
+			}
+		}
+	}
+	v := elem()
+	if path {
+		for i, n := 0, r.Intn(3); i < n; i++ {
+			v += "/" + elem()
+		}
+		v = []string{"", "", "/", "../", "../../"}[r.Intn(5)] + v
+	}
+	switch r.Intn(4) {
+	case 0:
+		if !strings.ContainsAny(v, "`\r") {
+			return "`" + v + "`"
+		}
+	case 1:
+		return strconv.QuoteToASCII(v)
+	case 2:
+		return `"` + strings.NewReplacer(`\`, `\\`, `"`, `\"`).Replace(v) + `"`
+	}
+	return strconv.Quote(v)
+}
+
 func randExpr(r *rand.Rand, d int) string {
 	if d <= 0 || r.Intn(6) == 0 {
+		switch r.Intn(12) {
+		case 0:
+			return "render " + randStringLit(r, true)
+		case 1:
+			return randStringLit(r, false)
+		}
 		return rLit[r.Intn(len(rLit))]
 	}
 	par := func(s string) string {
@@ -380,7 +458,11 @@ func randExpr(r *rand.Rand, d int) string {
 
 func randStmt(r *rand.Rand) string {
 	e := func() string { return randExpr(r, 2) }
-	switch r.Intn(9) {
+	switch r.Intn(11) {
+	case 9:
+		return "extends " + randStringLit(r, true)
+	case 10:
+		return "import " + []string{"", "", "a ", ". ", "_ "}[r.Intn(5)] + randStringLit(r, true)
 	case 0:
 		return "a " + []string{"=", ":=", "+=", "-=", "*=", "/=", "%=", "&=", "|=", "^=", "&^=", "<<=", ">>="}[r.Intn(13)] + " " + e()
 	case 1:
